@@ -45,7 +45,13 @@ def unambiguous(vs, op, pos, arg):
     sigs = [SIG[v[0]] for v in vs]
     if len(set(sigs)) != len(sigs):
         return False
-    if op in ('insert', 'replace'):
+    if op == 'replace':
+        # a replacing voice that shares a call-site shape with the voice it replaces is indistinguishable from an inner edit of
+        # that voice (the state tree has shapes, not names): its shared site may legitimately keep its state -> not scripted
+        if set(leafsigs(SIG[arg[0]])) & set(leafsigs(SIG[vs[pos][0]])):
+            return False
+        return SIG[arg[0]] not in sigs
+    if op == 'insert':
         return SIG[arg[0]] not in sigs
     if op == 'multi':
         cur = list(vs)
